@@ -458,6 +458,26 @@ example : parse (vToHtml [.island ['C'] ['{','"','a','"',':','"','\'','<','/','&
 example : vToHtml [.text ['a'], .island ['C'] [] [.text ['b']], .text ['c']] =
     ['a'] ++ islandOpen ['C'] [] ++ ['<','!','>','b','<','/'] ++ tIsland ++ ['>','<','!','>','c'] := by decide
 
+/-! ## leptos components that pass `escape` on: transparent for escaping -/
+
+/-- **wrappers are transparent** (`<Show>`, `<ErrorBoundary>` incl. its fallback and the error messages,
+`<For>`, `<Suspense>` / `<Transition>` incl. fallback, `<Await>`): whatever branch is shown — first paint or
+settled document — the HTML of the view they resolve to parses, modulo sibling markers, to exactly that
+view's structure; every string inside (error messages, fallback text, rows, awaited data) is a string of
+the resolved view, so `C06_view_structure_preserved` speaks about it. -/
+theorem C06_wrappers_transparent (final : Bool) (msgs : Str) (w : List WNode)
+    (h : vwfKids [[]] (resolveKids final msgs w) = true) :
+    (parse (vToHtml (resolveKids final msgs w))).map normList =
+      some (normList (vStructureOf (resolveKids final msgs w))) := by
+  rw [C06_view_structure_preserved _ h]
+  rfl
+
+/-- an error message with markup in it, shown by the fallback of its boundary next to a text -/
+example : (parse (vToHtml (resolveKids true [] [.elem ['p'] [] [.leaf (.text ['a']),
+      .boundary [.err ['<','&']] [.errMsgs]]]))).map normList =
+    some [.elem ['p'] [] [.text ['a','<','&']]] := by
+  decide
+
 /-! ## the element table: `genericOK` is just `kind = generic` -/
 
 theorem contains_dash_of_custom {t : Str} (h : isCustomTag t = true) : t.contains '-' = true := by
